@@ -27,6 +27,10 @@ type Component interface {
 var components = map[string]Component{}
 
 func main() {
+	if len(os.Args) >= 2 && os.Args[1] == "real-worker" {
+		realWorkerMain()
+		return
+	}
 	if len(os.Args) < 3 {
 		names := []string{}
 		for k := range components {
@@ -40,10 +44,7 @@ func main() {
 		gcsWorkerMain()
 		return
 	}
-	if os.Args[1] == "real-worker" {
-		realWorkerMain()
-		return
-	}
+
 	comp, ok := components[os.Args[1]]
 	if !ok {
 		fmt.Fprintf(os.Stderr, "unknown component %q\n", os.Args[1])
